@@ -2908,8 +2908,14 @@ def _put_slice_Call_ClassDef_arglikes(
 
     field, _, _ = _move_arglikes_into_one_field(self, body)
 
-    _put_slice_seq_and_asts(self, start, stop, field, body, fst_, 'arglikes', None,
-                            bound_ln, bound_col, bound_end_ln, bound_end_col, ',', False, options)
+    try:
+        _put_slice_seq_and_asts(self, start, stop, field, body, fst_, 'arglikes', None,
+                                bound_ln, bound_col, bound_end_ln, bound_end_col, ',', False, options)
+
+    except Exception:
+        _split_arglikes_into_two_fields(self, body, field)  # don't leave the keywords merged into args / bases on failure
+
+        raise
 
     if body:
         _split_arglikes_into_two_fields(self, body, field)
